@@ -6,11 +6,18 @@ import subprocess
 import sys
 
 VERIF = os.path.dirname(os.path.dirname(os.path.abspath(__file__)))
-REPO = "/repo"
+# VERIF_REPO / VERIF_OUT exist only for testing the checks against a scratch
+# copy of the repository with a deliberate change applied (tools/seedtest.py);
+# registered commands never set them, so evidence always describes /repo.
+REPO = os.environ.get("VERIF_REPO", "/repo")
+REPO_SRC = os.path.join(REPO, "src")
 DEPS = os.path.join(VERIF, ".deps")
 WORK = os.path.join(VERIF, ".work")
-EVIDENCE = os.path.join(VERIF, "evidence")
-REPLAYS = os.path.join(VERIF, "replays")
+_OUT = os.environ.get("VERIF_OUT") or VERIF
+if REPO != "/repo" and _OUT == VERIF:
+    raise SystemExit("VERIF_REPO set without VERIF_OUT")
+EVIDENCE = os.path.join(_OUT, "evidence")
+REPLAYS = os.path.join(_OUT, "replays")
 KNOWN = os.path.join(VERIF, "known_findings.json")
 GUARD = "GTIRB_REWRITING_VERIF"
 PY = "/venv/bin/python"
